@@ -937,6 +937,32 @@ class Analysis:
                                 keep.add(Fact(">", f.l, f.r))
                             if w[0] == "dec" and f.op in ("<=", "<", "=="):
                                 keep.add(Fact("<", f.l, f.r))
+                    # relations between x and other quantities hold for the old value: x_old = x -/+ 1
+                    if len(w[1]) == 1:
+                        from . import lin as _lin
+                        vid = w[1][0][2]
+                        ref = None
+                        nshift = 0
+                        for f in d:
+                            if nshift >= 8:
+                                break
+                            if f.kind != "cmp" or vid not in f.vars or isinstance(f.key[2], int) or f.op == "!=":
+                                continue
+                            if sk(f.r).get("k") in ("Call", "Cond", "Str", "InitList") or _lin.lin(f.l) is None or _lin.lin(f.r) is None:
+                                continue
+                            if ref is None:
+                                for y in list(walk(f.l)) + list(walk(f.r)):
+                                    if y.get("k") == "Ref" and y["ref"].get("id") == vid:
+                                        ref = y
+                                        break
+                            if ref is None:
+                                continue
+                            old = {"k": "Bin", "op": "-" if w[0] == "inc" else "+", "t": ref.get("t") or INT_T, "a": [ref, mkint(1)]}
+                            try:
+                                keep.add(subst_fact(f, {vid: old}))
+                                nshift += 1
+                            except Exception:
+                                pass
             # x = MIN(x, E) only lowers x: upper bounds of x survive the assignment
             for g in gens:
                 if g[0] != "assign":
@@ -1092,8 +1118,39 @@ class Analysis:
                 if g.kind == "imp" and g.key[1] == f.key[0]:
                     lo, hi, ne = d_bounds(new, f.key[0])
                     if _sat(lo, hi, ne, g.relop, g.c):
-                        new.add(g.fact)
+                        rel = g.fact
+                        if self.E.hist_roots:
+                            # what a flag stood for was established when the flag was computed: remember it like a
+                            # branch on the comparison itself would have
+                            def hroot(q):
+                                return q.kind == "cmp" and any(m[0][1] in self.E.hist_roots for m, _ in q.paths)
+                            if hroot(rel):
+                                new.add(Hist(rel))
+                            elif rel.kind == "alt":
+                                hs = [[Hist(q) for q in a if hroot(q)] for a in rel.alts]
+                                if all(hs):
+                                    new.add(Alt(hs))        # survives stores to the memory the facts talk about
+                        new.add(rel)
         return frozenset(new)
+
+    def _edge_dead(self, b, si):
+        """A branch on the result of a function that returns the same constant on every path (`tun_uses_header()` is
+        `return 1` in this configuration): the other edge is never taken."""
+        t = b.term
+        if not t or t.get("cond") is None or len(b.succs) != 2 or t.get("kind") == "SwitchStmt":
+            return False
+        c = sk(t["cond"])
+        pol = True
+        while c is not None and c.get("k") == "Un" and c["op"] == "!":
+            c = sk(c["a"][0])
+            pol = not pol
+        if c is None or c.get("k") != "Call" or not c.get("fn"):
+            return False
+        v = self.E.const_return(self.f, c)
+        if v is None:
+            return False
+        truth = (v != 0) == pol
+        return (si == 0) != truth
 
     def _counting_loop_facts(self, hb):
         """`for (i = c0; i < N; i += s)` with constants: inside the body i is one of c0, c0 + g, c0 + 2g, .. below N (g the
@@ -1268,6 +1325,9 @@ class Analysis:
                 continue
             for si, s in enumerate(b.succs):
                 if s is None:
+                    continue
+                if self._edge_dead(b, si):
+                    EDGE[(bid, si)] = set()
                     continue
                 ef = self.edge_facts(b, si)
                 if si == 0 and bid in heads:
@@ -1564,6 +1624,22 @@ class Engine:
             # a predicate that answers yes for more than one reason (`unused OR expired`): keep the reasons
             out.add(Alt(rests))
         return frozenset(out)
+
+    def const_return(self, caller, call):
+        """The constant a callee returns on every path (no parameters involved), or None."""
+        tgt = self.P.callee(call, caller)
+        if tgt is None:
+            return None
+        memo = self.__dict__.setdefault("_constret", {})
+        if id(tgt) not in memo:
+            vals = set()
+            n = 0
+            for b_, x in tgt.all_nodes():
+                if x.get("k") == "Return":
+                    n += 1
+                    vals.add(cval(sk(x["a"][0])) if x.get("a") else None)
+            memo[id(tgt)] = next(iter(vals)) if n and len(vals) == 1 and None not in vals else None
+        return memo[id(tgt)]
 
     def call_post(self, caller, call):
         """Facts that hold after the call whatever it returns (they hold at
